@@ -2,6 +2,7 @@ package simrt
 
 import (
 	"bytes"
+	"os"
 	"runtime"
 	"strconv"
 )
@@ -19,8 +20,20 @@ func goid() int64 {
 	return id
 }
 
-// blockedOutside reports whether goroutine id is parked by the runtime in something other than the
-// simulator's own hand-off (which never lasts): a channel operation, select, sleep, a real lock or condition.
+// parkChain lists the runtime / sync / time functions that may sit between runtime.gopark and the
+// caller that decided to block in a channel operation, select, sleep, real lock, condition or group.
+var parkChain = []string{
+	"runtime.gopark", "runtime.goparkunlock", "runtime.chanrecv", "runtime.chansend", "runtime.selectgo", "runtime.block",
+	"runtime.semacquire", "runtime.timeSleep", "runtime.notetsleepg", "time.Sleep",
+	"sync.runtime_Semacquire", "sync.runtime_SemacquireMutex", "sync.runtime_SemacquireRWMutex", "sync.runtime_SemacquireRWMutexR", "sync.runtime_SemacquireWaitGroup",
+	"sync.runtime_notifyListWait", "sync.(*Mutex).", "sync.(*RWMutex).", "sync.(*WaitGroup).", "sync.(*Cond).", "sync.(*Once).",
+}
+
+// blockedOutside reports whether goroutine id is parked in a blocking primitive that *its own code*
+// called and that is not the simulator's hand-off: the frames between runtime.gopark and the first
+// frame outside runtime/sync/time must all belong to parkChain (a park inside the allocator, the
+// garbage collector or any other runtime-internal wait does not qualify), and that first outside
+// frame must not be the simulator itself.
 func blockedOutside(id int64) bool {
 	if id <= 0 {
 		return false
@@ -32,18 +45,65 @@ func blockedOutside(id int64) bool {
 	if i < 0 {
 		return false
 	}
-	rest := buf[i+len(head) : n]
-	j := bytes.IndexByte(rest, ']')
-	if j < 0 {
+	blk := buf[i:n]
+	if j := bytes.Index(blk, []byte("\n\n")); j >= 0 {
+		blk = blk[:j]
+	}
+	lines := bytes.Split(blk, []byte("\n"))
+	if len(lines) < 2 {
 		return false
 	}
-	st := string(rest[:j])
-	for _, k := range []string{"chan receive", "chan send", "select", "sleep", "semacquire", "sync.Cond.Wait", "sync.Mutex.Lock", "sync.RWMutex", "sync.WaitGroup.Wait", "IO wait"} {
+	st := string(lines[0][len(head):])
+	parked := false
+	for _, k := range []string{"chan receive", "chan send", "select", "sleep", "semacquire", "sync.Cond.Wait", "sync.Mutex.Lock", "sync.RWMutex", "sync.WaitGroup.Wait"} {
 		if len(st) >= len(k) && st[:len(k)] == k {
-			// the task's own hand-off to the scheduler is a channel operation too, but then the step
-			// counter moves; the monitor only asks after the counter stood still
-			return true
+			parked = true
 		}
+	}
+	if !parked {
+		return false
+	}
+	// Stack dumps of other goroutines hide runtime frames.  A goroutine that waits on a semaphore
+	// because *its code* called a sync primitive shows sync.* frames on top; one that waits inside
+	// the allocator or the collector shows the allocating function on top.
+	sawSync := false
+	needSync := len(st) >= 10 && st[:10] == "semacquire"
+	for _, l := range lines[1:] {
+		if len(l) == 0 || l[0] == '\t' {
+			continue
+		}
+		fn := string(l)
+		if k := bytes.LastIndexByte(l, '('); k > 0 {
+			fn = string(l[:k])
+		}
+		inChain := false
+		for _, p := range parkChain {
+			if len(fn) >= len(p) && fn[:len(p)] == p {
+				inChain = true
+				break
+			}
+		}
+		if inChain {
+			if len(fn) >= 5 && fn[:5] == "sync." {
+				sawSync = true
+			}
+			continue
+		}
+		if needSync && !sawSync {
+			return false // a semaphore wait that no sync primitive of the task's own code explains
+		}
+		if len(fn) >= 8 && fn[:8] == "runtime." {
+			return false // a wait inside the runtime (allocator, collector, ...)
+		}
+		// the first frame of the code that asked to block
+		if len(fn) >= 16 && fn[:16] == "verif/sim/simrt." {
+			return false // the simulator's own hand-off, merely slow to be served
+		}
+		if os.Getenv("VERIF_DEBUG_EXTERNAL") != "" {
+			os.Stderr.Write(append([]byte("EXTERNAL-BLOCK:\n"), blk...))
+			os.Stderr.Write([]byte("\n"))
+		}
+		return true
 	}
 	return false
 }
